@@ -108,6 +108,9 @@ class StructureMetaType(MetaType):
 
             if isinstance(field.type, StructureMetaType) and field.name is None:
                 for anon_field in field.type.fields.values():
+                    if anon_field.name in lookup and anon_field.name != "_":
+                        raise ValueError(f"Duplicate field name: {anon_field.name}")
+
                     attr = f"{field._name}.{anon_field.name}"
                     classdict[anon_field.name] = property(attrgetter(attr), attrsetter(attr))
 
